@@ -7,7 +7,7 @@ from ..nf import Rat, C
 from ..source import Unsupported, AnchorError
 from ..xlate import Interp, Frame, Obj, ListV, DictV, Raised, RankOrder
 from .common import same, show, coeff_vector
-from .rxnfix import species as opaque_species
+from .rxnfix import species as opaque_species, set_public, make_reaction
 
 Z = '\x00'
 
@@ -62,7 +62,8 @@ def species_emitters(run, repo):
                 a9.is_array = True
                 segs.append(Obj('seg%d' % k, sci, attrs={'a': a9, 'T_low': D.sym('seg%d.T_low' % k),
                                                        'T_high': D.sym('seg%d.T_high' % k)}))
-            o = Obj('sp', ci, attrs={'name': name, 'elements': els, 'n_sites': ns, '_nasas': ListV(segs)})
+            o = Obj('sp', ci, attrs={'name': name, 'elements': els, 'n_sites': ns})
+            set_public(I, o, 'nasas', ListV(segs))
             want_cti = []
             for s_ in segs:
                 want_cti += [s_.attrs['T_low'], s_.attrs['T_high']] + s_.attrs['a'].items
@@ -74,7 +75,8 @@ def species_emitters(run, repo):
             a8 = coeff_vector(I, 'a', 8)
             a8.is_array = True
             o = Obj('sp', ci, attrs={'name': name, 'elements': els, 'n_sites': ns, 'a': a8, 'T_low': D.sym('Tl'),
-                                     'T_high': D.sym('Th'), '_units': 'J/mol/K'})
+                                     'T_high': D.sym('Th')})
+            set_public(I, o, 'units', 'J/mol/K')
             want_cti = [D.sym('Tl'), D.sym('Th')] + a8.items[:7]
             want_T = [D.sym('Tl'), D.sym('Th')]
             want_data = a8.items[:7]
@@ -220,12 +222,9 @@ def reaction_emitters(run, repo):
         # a surface step has two surface reactants: its pre-exponential factor then carries a power of the site
         # density and depends on the quantity/length units requested
         r0 = g if adsorption else a3
-        attrs = {'_reactants': ListV([r0, a]), '_reactants_stoich': ListV([C(1), C(1)]), '_products': ListV([b]),
-                 '_products_stoich': ListV([C(2)]), '_transition_state': None, '_transition_state_stoich': None,
-                 'notes': None, '_id': rid, 'is_adsorption': adsorption, 'A': None, '_beta': D.sym('beta'),
-                 'Ea': D.sym('Ea_user') if user_ea else None, 'direction': None,
-                 '_sticking_coeff': D.sym('stick'), 'use_motz_wise': False}
-        rxn = Obj('rxn', ci, attrs=attrs)
+        rxn = make_reaction(I, repo, ci, [r0, a], [C(1), C(1)], [b], [C(2)], id=rid, is_adsorption=adsorption,
+                            A=None, beta=D.sym('beta'), Ea=D.sym('Ea_user') if user_ea else None, direction=None,
+                            sticking_coeff=D.sym('stick'), use_motz_wise=False)
         T, P = D.sym('T'), D.sym('P')
         label = 'adsorption=%s user Ea=%s' % (adsorption, user_ea)
         if user_ea:
